@@ -14,6 +14,49 @@ CHECKS = {
             "Sampling of an algebraic identity whose failure regions are large once the frozen test dimensions vary.",
             "Trusts curve-crate group arithmetic, ed25519-dalek verify_strict, libsecp256k1, and /verif/ref/frostref.py as pinned by RFC 9591/8032/BIP-340 vectors.",
             "DESIGN.md §4 C01"),
+    "C02": ("exploration",
+            "differential property-based testing against an independent RFC 9591 / BIP-340 reference implementation (Python, pinned to the RFC vectors)",
+            "Every generated FROST run is recomputed by frostref.py from the same shares, tape-recorded random bytes and message and compared byte for byte "
+            "(nonces, commitments, commitment list and order, binding-factor inputs, binding factors, group commitment, challenge, interpolation coefficients, "
+            "shares, signature); exhaustive sweep of all 65535 u16 identifier encodings; single-signer interoperability in both directions.",
+            "Trusts frostref.py (self-tested against RFC 9591 App. E vectors of all suites, RFC 8032 and BIP-340 vectors at setup), ed25519-dalek and libsecp256k1 as signers/verifiers.",
+            "DESIGN.md §4 C02"),
+    "C03": ("exploration",
+            "property-based testing with enumerated sub-threshold subsets and a hand-assembled-signature oracle",
+            "For generated groups every size k<t and every k-subset (small C(n,k)) is run: honest signer/coordinator refusals with the documented errors, the everybody-lies run in all "
+            "three detection modes plus the hand-summed signature, interpolation of k shares, and the t-share control.",
+            "Secrecy itself is information-theoretic and not testable; observable consequences only. Trusts curve arithmetic and the harness's own Lagrange routine.",
+            "DESIGN.md §4 C03"),
+    "C04": ("fault_enumeration",
+            "fault enumeration over cheater subsets x fault kinds x detection modes against a scalar reference model",
+            "Per generated session every non-empty cheater subset (|S|<=5) with eight fault kinds and a cancelling variant is judged in Disabled/FirstCheater/AllCheaters and standalone "
+            "share verification against the model cheaters={i|submitted!=honest}, delta=sum(submitted-honest); Taproot parity combinations are forced.",
+            "Honest shares are those produced by the library's own sign (their correctness is C01/C02). Larger signer sets are sampled.",
+            "DESIGN.md §4 C04"),
+    "C05": ("fault_enumeration",
+            "exhaustive slot-filling enumeration over two concurrent sessions plus single-field substitution catalogue",
+            "For generated session pairs every filling of commitment slots, message and share slots with material of A or B is aggregated and share-verified; every single-field "
+            "substitution of the package, the compensated substitution (D+rho*T, E-T), identity commitments and the signer-side refusals are checked.",
+            "A share being valid for a different package by chance is taken as impossible (negligible probability).",
+            "DESIGN.md §4 C05"),
+    "C06": ("fault_enumeration",
+            "property-based testing of dealer output invariants with complete single-coordinate tampering enumeration",
+            "Generated (n,t,identifier list, entry point) sharings are checked against naive-power VSS evaluation, own Lagrange interpolation (t reconstruct, t-1 do not, all on one polynomial), "
+            "field consistency; every single-coordinate tampering (value, identifier, each coefficient, truncate, extend) and every invalid-parameter class must be refused.",
+            "Trusts curve arithmetic; interpolation/evaluation are the harness's own routines.",
+            "DESIGN.md §4 C06"),
+    "C07": ("exploration",
+            "property-based testing of the three-part DKG against an independently recomputed key and shares",
+            "Generated DKG runs (n, t, identifier styles, tapes): identical public key packages, package consistency, group key = sum of constant-term commitments, shares = sum_j f_j(i) by naive "
+            "evaluation (Taproot: even-Y normalisation + BIP-341 tweak from the Python reference), then a t-subset and the full set sign and verify independently.",
+            "Trusts curve arithmetic and frostref.py's taproot_tweak_pubkey.",
+            "DESIGN.md §4 C07"),
+    "C08": ("fault_enumeration",
+            "complete fault enumeration over (receiver, sender, fault kind, field) on generated DKG transcripts",
+            "Per honest transcript (n in 2..6, every t) every (receiver, sender) pair x ~30 single faults (both proof components, every commitment coefficient, lengths, foreign/other-run "
+            "packages, misfiled/missing/surplus, all share faults) must fail at the first consuming step, never yield key material, and name exactly the sender when attributable.",
+            "'Attributable' = proof, coefficient and share faults; structural faults must only fail without naming a correctly filed honest sender.",
+            "DESIGN.md §4 C08"),
 }
 
 NOT_APPLICABLE = {}
